@@ -2,6 +2,8 @@
 
 package shell
 
+import "strings"
+
 // Contracts for the verification harness in /verif (see /verif/DESIGN.md).
 // Compiled only under the build tag "verif". The two functions at the end are lemma functions: ordinary Go that
 // exists only to state a property of the package's tables as a postcondition.
@@ -26,6 +28,195 @@ package shell
 //@+     ite(m == 2, ite(cl == clSingle, drop, push), ite(cl == clQuote || cl == clDouble, drop, push)))))
 //@ spec validState(st state) bool := stBreak <= st && st <= stDoubleQ
 //@
+//@ import bytes
+//@ import bufio
+//@ import io
+//@ import strings
+//@ import sync
+//@
+//@ pred scanWF(s *Scanner) := s != nil && s.buf != nil && 0 <= s.buf.pos && s.buf.pos <= len(s.buf.input) && s.cur.n >= 0
+//@+     && (s.st == stNone || validState(s.st)) && (s.err == nil ==> validState(s.st))
+//@
+//@ func NewScanner
+//@   ensures [C16] result != nil && fresh(result) && result.st == stBreak && result.err == nil && result.buf != nil && result.buf.pos == 0 && result.buf.input == rdstr[r]
+//@
+//@ func (*Scanner).Reset
+//@   requires s != nil && s.buf != nil
+//@   ensures [C16] scanWF(s) && s.st == stBreak && s.err == nil && s.cur.n == 0 && s.buf == old(s.buf) && s.buf.pos == 0 && s.buf.input == rdstr[r]
+//@   modifies s.st, s.err, s.buf.pos, s.buf.input, s.cur.n
+//@
+//@ func (*Scanner).Next
+//@   requires scanWF(s)
+//@   ghostret gn int, gtok imap[byte], gst state, ga action
+//@   ensures [C16] wf: scanWF(s) && s.buf == old(s.buf) && s.buf.input == old(s.buf.input) && s.buf.pos >= old(s.buf.pos)
+//@   ensures [C16] stopped: old(s.err) != nil ==> !result && s.st == old(s.st) && s.err == old(s.err) && s.buf.pos == old(s.buf.pos) && s.cur.n == old(s.cur.n)
+//@   ensures [C16] refines: old(s.err) == nil ==> s.st == gst && s.cur.n == gn && forall k int :: {s.cur.data[k]} 0 <= k && k < gn ==> s.cur.data[k] == gtok[k]
+//@   ensures [C16] emitted: old(s.err) == nil && s.err == nil ==> result && ga == emit && s.st == stBreak
+//@   ensures [C16] eof: old(s.err) == nil && s.err != nil ==> s.err == io.EOF && s.buf.pos == len(s.buf.input) && result == (s.st != stBreak)
+//@   modifies s.st, s.err, s.buf.pos, s.cur.n, s.cur.data
+//@   at entry: ghost gn = 0
+//@   at entry: ghost gst = s.st
+//@   at after "s.st = next.state": ghost ga = act(pmode(gst), pesc(gst), pclass(c))
+//@   at after "s.st = next.state": ghost gtok = ite(ga == push, upd(gtok, gn, c), ite(ga == xpush, upd(upd(gtok, gn, '\\'), gn + 1, c), gtok))
+//@   at after "s.st = next.state": ghost gn = ite(ga == push, gn + 1, ite(ga == xpush, gn + 2, gn))
+//@   at after "s.st = next.state": ghost gst = enc(newMode(pmode(gst), pesc(gst), pclass(c)), newEsc(pmode(gst), pesc(gst), pclass(c)))
+//@   loop 1: invariant wf: s.buf == old(s.buf) && s.buf.input == old(s.buf.input) && old(s.buf.pos) <= s.buf.pos && s.buf.pos <= len(s.buf.input) && s.err == nil && old(s.err) == nil
+//@   loop 1: invariant refines: validState(s.st) && s.st == gst && s.cur.n == gn && gn >= 0 && forall k int :: {s.cur.data[k]} 0 <= k && k < gn ==> s.cur.data[k] == gtok[k]
+//@
+//@ func (*Scanner).Text
+//@   pure
+//@   requires s != nil && s.cur.n >= 0
+//@   ensures [C16] len(result) == s.cur.n && forall i int :: {result[i]} 0 <= i && i < s.cur.n ==> result[i] == s.cur.data[i]
+//@
+//@ func (*Scanner).Err
+//@   pure
+//@   requires s != nil
+//@   ensures [C16] result == s.err
+//@
+//@ func (*Scanner).Complete
+//@   pure
+//@   requires s != nil
+//@   ensures [C16] result == (s.st == stBreak || s.st == stWord)
+//@
+//@ func (*Scanner).Rest
+//@   requires s != nil
+//@   ensures [C16] s.st == stNone && s.err == io.EOF && s.cur.n == 0 && result == s.buf && s.buf == old(s.buf) && s.buf.pos == old(s.buf.pos) && s.buf.input == old(s.buf.input)
+//@   modifies s.st, s.err, s.cur.n
+//@
+// C15: the bytes with a special meaning to a POSIX shell (XCU 2.2), written out here and not copied from the
+// package's constants; govcSpecial (a lemma function below) shows that the package quotes every one of them.
+//@ spec posixSpecial(b byte) bool := b == '|' || b == '&' || b == ';' || b == '<' || b == '>' || b == '(' || b == ')' || b == '$' || b == '`' || b == '\\' || b == '"' || b == '\''
+//@+     || b == ' ' || b == '\t' || b == '\n' || b == '*' || b == '?' || b == '[' || b == '#' || b == '~' || b == '=' || b == '%'
+//@ spec needsQuote(b byte) bool := strhas(allQuote, b)
+//@
+//@ func govcSpecial
+//@   pure
+//@   ensures [C15] covers: posixSpecial(b) && b != '\'' ==> result
+//@   ensures [C15] exact: result == needsQuote(b)
+//@
+//@ func quotable
+//@   pure
+//@   ghostret wq int, wo int
+//@   ensures [C15] hasQ: result.0 ==> 0 <= wq && wq < len(s) && s[wq] == '\''
+//@   ensures [C15] noQ: !result.0 ==> forall k int :: {s[k]} 0 <= k && k < len(s) ==> s[k] != '\''
+//@   ensures [C15] hasOther: result.1 ==> 0 <= wo && wo < len(s) && needsQuote(s[wo])
+//@   ensures [C15] noOther: !result.1 ==> forall k int :: {s[k]} 0 <= k && k < len(s) ==> !needsQuote(s[k]) || s[k] == '\''
+//@   at after "v |= quote": ghost wq = i
+//@   at after "v |= other": ghost wo = i
+//@   loop 1: invariant idx: 0 <= i && i <= len(s) && 0 <= v && v <= 3
+//@   loop 1: invariant hasQ: emod(v, 2) == 1 ==> 0 <= wq && wq < i && s[wq] == '\''
+//@   loop 1: invariant noQ: emod(v, 2) == 0 ==> forall k int :: {s[k]} 0 <= k && k < i ==> s[k] != '\''
+//@   loop 1: invariant hasOther: v >= 2 ==> 0 <= wo && wo < i && needsQuote(s[wo])
+//@   loop 1: invariant noOther: v < 2 ==> forall k int :: {s[k]} 0 <= k && k < i ==> !needsQuote(s[k]) || s[k] == '\''
+//@   loop 1: decreases len(s) - i
+//@
+// quote: a ghost copy of the reference tokenizer (mode gm, escape flag ge, token gtok[0..gn)) reads every byte that
+// quote appends, starting between words. At the end it is inside a word, not escaped, has emitted nothing, its token
+// is exactly s, and no special byte was read outside quotes.
+//@ func quote
+//@   requires buf != nil
+//@   ghostret gm int, ge bool, gn int, gtok imap[byte], bare bool, emitted bool, gcl class, gm2 int
+//@   ensures [C15] word: gm == 1 && !ge && !emitted
+//@   ensures [C15] token: gn == len(s) && forall k int :: {gtok[k]} 0 <= k && k < len(s) ==> gtok[k] == s[k]
+//@   ensures [C15] protected: !bare
+//@   ensures [C15] appended: buf.n >= old(buf.n) && forall k int :: {buf.data[k]} 0 <= k && k < old(buf.n) ==> buf.data[k] == old(buf.data[k])
+//@   modifies buf.n, buf.data
+//@   at entry: ghost gm = 0
+//@   at entry: ghost ge = false
+//@   at entry: ghost gn = 0
+//@   at entry: ghost bare = false
+//@   at entry: ghost emitted = false
+//@   at after "buf.WriteByte('\'')": ghost gcl = pclass('\'')
+//@   at after "buf.WriteByte('\'')": ghost bare = bare || (gm != 2 && !ge && posixSpecial('\'') && '\'' != '\'' && '\'' != '\\')
+//@   at after "buf.WriteByte('\'')": ghost emitted = emitted || act(gm, ge, gcl) == emit
+//@   at after "buf.WriteByte('\'')": ghost gtok = ite(act(gm, ge, gcl) == push, upd(gtok, gn, '\''), ite(act(gm, ge, gcl) == xpush, upd(upd(gtok, gn, '\\'), gn + 1, '\''), gtok))
+//@   at after "buf.WriteByte('\'')": ghost gn = ite(act(gm, ge, gcl) == push, gn + 1, ite(act(gm, ge, gcl) == xpush, gn + 2, gn))
+//@   at after "buf.WriteByte('\'')": ghost gm2 = newMode(gm, ge, gcl)
+//@   at after "buf.WriteByte('\'')": ghost ge = newEsc(gm, ge, gcl)
+//@   at after "buf.WriteByte('\'')": ghost gm = gm2
+//@   at after "buf.WriteByte('\\')": ghost gcl = pclass('\\')
+//@   at after "buf.WriteByte('\\')": ghost bare = bare || (gm != 2 && !ge && posixSpecial('\\') && '\\' != '\'' && '\\' != '\\')
+//@   at after "buf.WriteByte('\\')": ghost emitted = emitted || act(gm, ge, gcl) == emit
+//@   at after "buf.WriteByte('\\')": ghost gtok = ite(act(gm, ge, gcl) == push, upd(gtok, gn, '\\'), ite(act(gm, ge, gcl) == xpush, upd(upd(gtok, gn, '\\'), gn + 1, '\\'), gtok))
+//@   at after "buf.WriteByte('\\')": ghost gn = ite(act(gm, ge, gcl) == push, gn + 1, ite(act(gm, ge, gcl) == xpush, gn + 2, gn))
+//@   at after "buf.WriteByte('\\')": ghost gm2 = newMode(gm, ge, gcl)
+//@   at after "buf.WriteByte('\\')": ghost ge = newEsc(gm, ge, gcl)
+//@   at after "buf.WriteByte('\\')": ghost gm = gm2
+//@   at after "buf.WriteByte(ch)": ghost gcl = pclass(ch)
+//@   at after "buf.WriteByte(ch)": ghost bare = bare || (gm != 2 && !ge && posixSpecial(ch) && ch != '\'' && ch != '\\')
+//@   at after "buf.WriteByte(ch)": ghost emitted = emitted || act(gm, ge, gcl) == emit
+//@   at after "buf.WriteByte(ch)": ghost gtok = ite(act(gm, ge, gcl) == push, upd(gtok, gn, ch), ite(act(gm, ge, gcl) == xpush, upd(upd(gtok, gn, '\\'), gn + 1, ch), gtok))
+//@   at after "buf.WriteByte(ch)": ghost gn = ite(act(gm, ge, gcl) == push, gn + 1, ite(act(gm, ge, gcl) == xpush, gn + 2, gn))
+//@   at after "buf.WriteByte(ch)": ghost gm2 = newMode(gm, ge, gcl)
+//@   at after "buf.WriteByte(ch)": ghost ge = newEsc(gm, ge, gcl)
+//@   at after "buf.WriteByte(ch)": ghost gm = gm2
+//@   at after "buf.WriteString("''")": ghost gcl = pclass('\'')
+//@   at after "buf.WriteString("''")": ghost bare = bare || (gm != 2 && !ge && posixSpecial('\'') && '\'' != '\'' && '\'' != '\\')
+//@   at after "buf.WriteString("''")": ghost emitted = emitted || act(gm, ge, gcl) == emit
+//@   at after "buf.WriteString("''")": ghost gtok = ite(act(gm, ge, gcl) == push, upd(gtok, gn, '\''), ite(act(gm, ge, gcl) == xpush, upd(upd(gtok, gn, '\\'), gn + 1, '\''), gtok))
+//@   at after "buf.WriteString("''")": ghost gn = ite(act(gm, ge, gcl) == push, gn + 1, ite(act(gm, ge, gcl) == xpush, gn + 2, gn))
+//@   at after "buf.WriteString("''")": ghost gm2 = newMode(gm, ge, gcl)
+//@   at after "buf.WriteString("''")": ghost ge = newEsc(gm, ge, gcl)
+//@   at after "buf.WriteString("''")": ghost gm = gm2
+//@   at after "buf.WriteString("''")": ghost gcl = pclass('\'')
+//@   at after "buf.WriteString("''")": ghost bare = bare || (gm != 2 && !ge && posixSpecial('\'') && '\'' != '\'' && '\'' != '\\')
+//@   at after "buf.WriteString("''")": ghost emitted = emitted || act(gm, ge, gcl) == emit
+//@   at after "buf.WriteString("''")": ghost gtok = ite(act(gm, ge, gcl) == push, upd(gtok, gn, '\''), ite(act(gm, ge, gcl) == xpush, upd(upd(gtok, gn, '\\'), gn + 1, '\''), gtok))
+//@   at after "buf.WriteString("''")": ghost gn = ite(act(gm, ge, gcl) == push, gn + 1, ite(act(gm, ge, gcl) == xpush, gn + 2, gn))
+//@   at after "buf.WriteString("''")": ghost gm2 = newMode(gm, ge, gcl)
+//@   at after "buf.WriteString("''")": ghost ge = newEsc(gm, ge, gcl)
+//@   at after "buf.WriteString("''")": ghost gm = gm2
+// fast path: s is written unchanged. Every byte of s has class `other` (proved); that a run of such bytes read
+// between words is one unfinished word equal to the run is the one inductive fact about the reference tokenizer that
+// is assumed here (stated as an assumption in the evidence).
+//@   at after "buf.WriteString(s)": assert [C15] forall k int :: {s[k]} 0 <= k && k < len(s) ==> pclass(s[k]) == clOther && !posixSpecial(s[k])
+//@   at after "buf.WriteString(s)": assume forall k int :: {gtok[k]} 0 <= k && k < len(s) ==> gtok[k] == s[k]
+//@   at after "buf.WriteString(s)": ghost gn = len(s)
+//@   at after "buf.WriteString(s)": ghost gm = 1
+//@   loop 1: invariant idx: gn == it1 && !emitted && !bare && !ge && buf.n >= old(buf.n)
+//@   loop 1: invariant mode: (inq ==> gm == 2) && (!inq ==> (gm == 1 || (it1 == 0 && gm == 0)))
+//@   loop 1: invariant token: forall k int :: {gtok[k]} 0 <= k && k < it1 ==> gtok[k] == s[k]
+//@   loop 1: invariant kept: forall k int :: {buf.data[k]} 0 <= k && k < old(buf.n) ==> buf.data[k] == old(buf.data[k])
+//@   loop 1: invariant plain: !hasOther ==> !inq && forall k int :: {s[k]} 0 <= k && k < len(s) ==> !needsQuote(s[k]) || s[k] == '\''
+//@
+//@ func Quote
+//@   ghostret qm int, qe bool, qn int, qtok imap[byte], qbare bool
+//@   ensures [C15] empty: len(s) == 0 ==> len(result) == 2 && result[0] == '\'' && result[1] == '\''
+//@   ensures [C15] plain: len(s) > 0 && (forall k int :: {s[k]} 0 <= k && k < len(s) ==> !needsQuote(s[k]) && s[k] != '\'') ==> result == s
+//@   ensures [C15] quoted: len(s) > 0 && !(forall k int :: {s[k]} 0 <= k && k < len(s) ==> !needsQuote(s[k]) && s[k] != '\'') ==> qm == 1 && !qe && !qbare && qn == len(s) && forall k int :: {qtok[k]} 0 <= k && k < len(s) ==> qtok[k] == s[k]
+//@   at after "quote(s, buf)": ghost qm = quote_gm
+//@   at after "quote(s, buf)": ghost qe = quote_ge
+//@   at after "quote(s, buf)": ghost qn = quote_gn
+//@   at after "quote(s, buf)": ghost qtok = quote_gtok
+//@   at after "quote(s, buf)": ghost qbare = quote_bare
+//@   at after "buf := bufPool.Get().(*bytes.Buffer)": assume buf != nil
+//@
+//@ func Join
+//@   ensures [C15] empty: len(ss) == 0 ==> len(result) == 0
+//@   at after "buf := bufPool.Get().(*bytes.Buffer)": assume buf != nil
+//@   at after "quote(ss[0], buf)": assert [C15] quote_gm == 1 && !quote_ge && !quote_emitted && !quote_bare && quote_gn == len(ss[0])
+//@   at after "buf.WriteByte(' ')": assert [C15] act(1, false, pclass(' ')) == emit && newMode(1, false, pclass(' ')) == 0 && !newEsc(1, false, pclass(' '))
+//@   at after "quote(s, buf)": assert [C15] quote_gm == 1 && !quote_ge && !quote_emitted && !quote_bare && quote_gn == len(s)
+//@   loop 1: invariant buf != nil && buf.n >= 0
+//@
+//@ func (*Scanner).Split
+//@   requires scanWF(s)
+//@   ensures [C16] scanWF(s) && s.err != nil && s.buf == old(s.buf)
+//@   modifies s.st, s.err, s.buf.pos, s.cur.n, s.cur.data
+//@   loop 1: invariant scanWF(s) && s.buf == old(s.buf) && (tokens == nil || fresh(tokens)) && old_arrays_unchanged(tokens)
+//@
+//@ func (*Scanner).Each
+//@   role f yield
+//@   requires scanWF(s)
+//@   ensures [C16] scanWF(s) && s.buf == old(s.buf)
+//@   modifies s.st, s.err, s.buf.pos, s.cur.n, s.cur.data, calls(f)
+//@   loop 1: invariant scanWF(s) && s.buf == old(s.buf) && ncalls(f) >= old(ncalls(f)) && forall i int :: {callret(f, i)} old(ncalls(f)) <= i && i < ncalls(f) ==> callret(f, i)
+//@
+//@ func Split
+//@   ensures [C16] true
+//@   at after "sc := scanPool.Get().(*Scanner)": assume sc != nil && sc.buf != nil && fresh(sc.buf) && fresh(sc.cur)
+//@   modifies rdstr
+//@
 //@ func govcStep
 //@   pure
 //@   requires validState(st) && clOther <= cl && cl <= clDouble
@@ -45,3 +236,6 @@ func govcStep(st state, cl class) (state, action) {
 
 // govcClass is the class the scanner assigns to a byte.
 func govcClass(b byte) class { return classOf[b] }
+
+// govcSpecial reports whether the package treats b as a byte that needs quoting.
+func govcSpecial(b byte) bool { return strings.IndexByte(allQuote, b) >= 0 }
